@@ -1,0 +1,112 @@
+// SPDX-License-Identifier: 0BSD
+
+///////////////////////////////////////////////////////////////////////////////
+//
+/// \file       verif_hooks.h
+/// \brief      Observability hooks for external runtime monitors
+///
+/// Everything in this file is compiled only when TUKAANI_PROJECT_XZ_VERIF
+/// is defined. The hooks never change behaviour: they only count how often
+/// named places in the code are reached (VERIF_VISIT) so that a monitor can
+/// report which resume points and which threaded-coder events a workload
+/// actually drove.
+//
+///////////////////////////////////////////////////////////////////////////////
+
+#ifndef LZMA_VERIF_HOOKS_H
+#define LZMA_VERIF_HOOKS_H
+
+#ifdef TUKAANI_PROJECT_XZ_VERIF
+
+#include <stdint.h>
+
+enum {
+	VERIF_D_LZMA_SEQ,       // lzma_decoder.c: coder->sequence on entry
+	VERIF_D_LZMA2_SEQ,      // lzma2_decoder.c
+	VERIF_D_BLOCK_SEQ,      // block_decoder.c
+	VERIF_D_STREAM_SEQ,     // stream_decoder.c
+	VERIF_D_STREAM_MT_SEQ,  // stream_decoder_mt.c
+	VERIF_D_ALONE_SEQ,      // alone_decoder.c
+	VERIF_D_LZIP_SEQ,       // lzip_decoder.c
+	VERIF_D_FILE_INFO_SEQ,  // file_info.c
+	VERIF_D_INDEX_DEC_SEQ,  // index_decoder.c
+	VERIF_D_SIMPLE,         // simple_coder.c: named branches
+	VERIF_D_MT_DEC,         // stream_decoder_mt.c: named events
+	VERIF_D_MT_ENC,         // stream_encoder_mt.c: named events
+	VERIF_D_LZ_ENC,         // lz_encoder.c / lz_encoder_mf.c: named events
+	VERIF_D_COUNT
+};
+
+#define VERIF_VALUES 64
+
+// Named events of VERIF_D_SIMPLE
+enum {
+	VERIF_SIMPLE_FLUSH_POS,     // flushed already-filtered bytes
+	VERIF_SIMPLE_DIRECT,        // filtered directly in the output buffer
+	VERIF_SIMPLE_HOLDBACK,      // unfiltered tail moved to coder->buffer
+	VERIF_SIMPLE_BUFFERED,      // filtering done inside coder->buffer
+	VERIF_SIMPLE_END_FLUSH,     // end of input: held-back bytes released
+};
+
+// Named events of VERIF_D_MT_DEC
+enum {
+	VERIF_MTD_DIRECT_MODE,      // Block decoded in the main thread
+	VERIF_MTD_THREAD_START,     // a Block handed to a worker thread
+	VERIF_MTD_PARTIAL_START,    // partial output update requested
+	VERIF_MTD_PARTIAL_ENABLED,  // worker noticed the request
+	VERIF_MTD_STALLED_BREAK,    // last worker stalled waiting for input
+	VERIF_MTD_THREAD_ERROR,     // worker reported an error
+	VERIF_MTD_PENDING_ERROR,    // main-thread error held until drained
+	VERIF_MTD_CACHE_EVICT,      // cached worker memory freed
+	VERIF_MTD_MEM_WAIT,         // waited for memory to become available
+	VERIF_MTD_TIMED_OUT,        // wait ended by timeout
+	VERIF_MTD_WORKER_REUSE,     // idle worker reused for a new Block
+	VERIF_MTD_WAIT,             // main thread waited on the condvar
+	VERIF_MTD_THREADS_STOP,     // threads_stop() with live workers
+	VERIF_MTD_MEMLIMIT_ERROR,   // LZMA_MEMLIMIT_ERROR returned
+	VERIF_MTD_THREADS_END,      // threads_end() with live workers
+};
+
+// Named events of VERIF_D_MT_ENC
+enum {
+	VERIF_MTE_THREAD_START,     // new worker created
+	VERIF_MTE_WORKER_REUSE,     // idle worker reused
+	VERIF_MTE_INCOMPRESSIBLE,   // Block re-encoded as uncompressed
+	VERIF_MTE_WAIT,             // main thread waited on the condvar
+	VERIF_MTE_TIMED_OUT,        // wait ended by timeout
+	VERIF_MTE_REINIT_REUSE,     // re-init kept the existing workers
+	VERIF_MTE_REINIT_END,       // re-init ended the existing workers
+	VERIF_MTE_THREAD_ERROR,     // worker reported an error
+	VERIF_MTE_FLUSH_BLOCK,      // Block finished by flush/barrier
+	VERIF_MTE_FILTERS_UPDATE,   // filter chain updated between Blocks
+	VERIF_MTE_THREADS_END,      // threads_end() with live workers
+};
+
+// Named events of VERIF_D_LZ_ENC
+enum {
+	VERIF_LZE_NORMALIZE,        // match finder positions normalized
+	VERIF_LZE_MOVE_WINDOW,      // sliding window moved
+	VERIF_LZE_PENDING_REPLAY,   // bytes skipped during flush replayed
+	VERIF_LZE_MOVE_PENDING,     // byte skipped during flush
+};
+
+extern uint64_t lzma_verif_visit_counts[VERIF_D_COUNT][VERIF_VALUES];
+
+#define VERIF_VISIT(domain, value) \
+	((void)__atomic_fetch_add( \
+		&lzma_verif_visit_counts[(domain)] \
+			[(unsigned)(value) % VERIF_VALUES], \
+		1, __ATOMIC_RELAXED))
+
+/// Number added to the initial lzma_mf.offset so that match finder
+/// normalization happens after a few bytes instead of after 4 GiB.
+/// Zero (the default) leaves the behaviour unchanged. Positions are used
+/// only as differences, so any value gives identical encoder output.
+extern uint32_t lzma_verif_mf_offset_bias;
+
+#else
+
+#define VERIF_VISIT(domain, value) ((void)0)
+
+#endif
+#endif
